@@ -10,7 +10,7 @@
    u64 range of the limiter's clock: [B + tau + tau < U64] for the latest time B considered
    (U64 = 2^64 ns, about 584 years after the limiter was created). *)
 From Coq Require Import List NArith Bool Lia.
-From Discv5V Require Import Generated.Params Model.Limiter Proofs.Limiter Proofs.LimiterGap.
+From Discv5V Require Import Generated.Params Model.Limiter Proofs.Limiter Proofs.LimiterGap Proofs.LimiterGap2.
 Import ListNotations.
 Local Open Scope N_scope.
 
@@ -444,3 +444,94 @@ Example C18_filter_window_bound_example :
     (tau iq + (80 - 50)) / tt iq = 3.
 Proof. exact filter_window_ip_example. Qed.
 Print Assumptions C18_filter_window_bound_example.
+
+(* ---------------------------------------------------------------------------------------------- *)
+(* pruning does not change any decision OF THE FILTER (gap audit, notes/gap_audit_C14_C20.md) *)
+
+(* C18_prune_transparent is about one Limiter.  Lifted to the filter: take any history [evs] of the
+   filter and the permit/ban list (datagrams, direct calls of the passes, the unban check, the
+   application's permit/ban calls) with prune_limiter calls interleaved anywhere, times that do not
+   go back; [no_fprunes evs] is the history without the prune calls.  Both produce the same
+   observations for every other event ([drop_prune_obs] removes the prune calls' empty observations)
+   and the same permit/ban lists.  [fgood B cur f]: the limiters of [f] are in a state they can be
+   in at time [cur] (wfl, linv) and the limiter clock does not overflow before B. *)
+Theorem C18_filter_prune_transparent :
+  forall evs f p cur B,
+    fgood B cur f -> mono_ev cur evs -> Forall (fun x => snd x <= B) evs ->
+    snd (fst (frun f p evs)) = snd (fst (frun f p (no_fprunes evs))) /\
+    drop_prune_obs evs (snd (frun f p evs)) = snd (frun f p (no_fprunes evs)).
+Proof. exact filter_prune_transparent. Qed.
+Print Assumptions C18_filter_prune_transparent.
+
+Example C18_filter_prune_transparent_example :
+  exists iq nq tq,
+    from_quota 1000 3 = Some iq /\ from_quota 1000 2 = Some nq /\ from_quota 1000 100 = Some tq /\
+    let r := {| init_time := 10; total_rl := tq; node_rl := Some nq; ip_rl := Some iq |} in
+    let f := new_filter true (Some r) (Some 5000) None None in
+    let evs := [(FInbound false 9 (Some (Some 5)), 50); (FPruneLimiter, 55); (FInitial 9, 60);
+                (FPruneLimiter, 2000); (FInbound false 9 (Some (Some 5)), 2000); (FInitial 9, 2000);
+                (FInitial 9, 2000); (FPruneLimiter, 2001); (FInitial 9, 2001); (FInitial 8, 2002)] in
+    fgood 3000 50 f /\ mono_ev 50 evs /\ Forall (fun x => snd x <= 3000) evs /\
+    snd (frun f empty_pbl (no_fprunes evs))
+    = [OFate Deliver; OBool true; OFate Deliver; OBool true; OBool true; OBool false; OBool true].
+Proof. exact filter_prune_transparent_example. Qed.
+Print Assumptions C18_filter_prune_transparent_example.
+
+(* ---------------------------------------------------------------------------------------------- *)
+(* the ban / permit decision table for one unsolicited datagram (RecvHandler::handle_inbound), in
+   the words of the property: dropped at the IP stage if its IP is banned, at the node stage if its
+   node id is banned, unless permit-listed, in which case that stage always lets it pass - in every
+   state of the filter and the lists, whatever the limiters say *)
+Theorem C18_datagram_of_banned_ip_dropped_at_ip_stage :
+  forall f p ip d now,
+    mem ip (permit_ips p) = false -> has_key ip (ban_ips p) = true ->
+    handle_inbound f p false ip d now = (f, p, DropIpStage).
+Proof. exact inbound_banned_ip. Qed.
+Print Assumptions C18_datagram_of_banned_ip_dropped_at_ip_stage.
+
+Theorem C18_datagram_of_permitted_ip_passes_ip_stage :
+  forall f p ip d now,
+    mem ip (permit_ips p) = true -> snd (handle_inbound f p false ip d now) <> DropIpStage.
+Proof. exact inbound_permitted_ip. Qed.
+Print Assumptions C18_datagram_of_permitted_ip_passes_ip_stage.
+
+(* (a datagram of a banned node id that is already dropped at the IP stage never reaches the node
+   stage) *)
+Theorem C18_datagram_of_banned_node_dropped :
+  forall f p ip id now,
+    mem id (permit_nodes p) = false -> has_key id (ban_nodes p) = true ->
+    snd (handle_inbound f p false ip (Some (Some id)) now) = DropIpStage \/
+    snd (handle_inbound f p false ip (Some (Some id)) now) = DropNodeStage.
+Proof. exact inbound_banned_node. Qed.
+Print Assumptions C18_datagram_of_banned_node_dropped.
+
+Theorem C18_datagram_of_permitted_node_passes_node_stage :
+  forall f p ip id now,
+    mem id (permit_nodes p) = true ->
+    snd (handle_inbound f p false ip (Some (Some id)) now) <> DropNodeStage.
+Proof. exact inbound_permitted_node. Qed.
+Print Assumptions C18_datagram_of_permitted_node_passes_node_stage.
+
+(* ---------------------------------------------------------------------------------------------- *)
+(* the limiter states a filter can reach: the hypotheses [wfl l], [linv l (A - init_time r)] and the
+   overflow bound of the three filter window theorems hold at every point of every history that
+   starts from a good filter (e.g. a new one, see the example above), so those theorems bound every
+   window of every history, not only windows that start at the creation of the filter *)
+Theorem C18_filter_reachable_limiter_states :
+  forall evs f p cur B,
+    fgood B cur f -> mono_ev cur evs -> Forall (fun x => snd x <= B) evs ->
+    fgood B (last_ev_time cur evs) (fst (fst (frun f p evs))).
+Proof. exact filter_limiters_reachable. Qed.
+Print Assumptions C18_filter_reachable_limiter_states.
+
+Theorem C18_good_filter_has_good_limiters :
+  forall B cur f r,
+    fgood B cur f -> rate f = Some r ->
+    (wfl (total_rl r) /\ linv (total_rl r) (cur - init_time r) /\
+     (B - init_time r) + tau (total_rl r) + tau (total_rl r) < U64) /\
+    (forall l, node_rl r = Some l ->
+       wfl l /\ linv l (cur - init_time r) /\ (B - init_time r) + tau l + tau l < U64) /\
+    (forall l, ip_rl r = Some l ->
+       wfl l /\ linv l (cur - init_time r) /\ (B - init_time r) + tau l + tau l < U64).
+Proof. exact fgood_limiters. Qed.
+Print Assumptions C18_good_filter_has_good_limiters.
